@@ -19,6 +19,7 @@ import (
 	"runtime/debug"
 	"sort"
 	"strconv"
+	"strings"
 	"sync"
 	"sync/atomic"
 	"testing/synctest"
@@ -304,11 +305,34 @@ func (s *Sim) Spawn(name string, sut bool, site int, fn func()) *Task {
 
 type killed struct{}
 
+// trimStack keeps the function names of the frames between the panic and the
+// task wrapper; addresses, goroutine numbers and arguments are dropped so that
+// the report is identical across runs.
 func trimStack(b []byte) string {
-	if len(b) > 3000 {
-		b = b[:3000]
+	var out []string
+	seenPanic := false
+	for _, ln := range strings.Split(string(b), "\n") {
+		if ln == "" || ln[0] == '\t' || strings.HasPrefix(ln, "goroutine ") || strings.HasPrefix(ln, "created by ") {
+			continue
+		}
+		if i := strings.LastIndexByte(ln, '('); i > 0 {
+			ln = ln[:i]
+		}
+		if !seenPanic {
+			if ln == "panic" {
+				seenPanic = true
+			}
+			continue
+		}
+		if strings.Contains(ln, "zzsimrt.") {
+			break
+		}
+		out = append(out, ln)
+		if len(out) >= 12 {
+			break
+		}
 	}
-	return string(b)
+	return "  at " + strings.Join(out, "\n  at ")
 }
 
 // Go is what an instrumented `go` statement calls.
